@@ -1,6 +1,6 @@
 import GT.Base.JsonQ
 import GT.Model.DrawPath
-open Lean GT.J GT GT.Draw
+open Lean GT.J GT GT.DrawPath
 namespace GT.Driver.C19
 
 def ptOf (j : Json) : R (ℚ × ℚ) := do
